@@ -20,6 +20,26 @@ structure Inv (s : Sys) : Prop where
 theorem Inv.init (n0 : Nat) : Inv (Sys.init n0) :=
   ⟨by simp [Sys.init], rfl, by simp [Sys.init], by simp [Sys.init], by simp [Sys.init]⟩
 
+theorem Inv.initF (n0 : Nat) (manual seen : Bool) : Inv (Sys.initF n0 manual seen) :=
+  ⟨by simp [Sys.initF, Sys.init], rfl, by simp [Sys.initF, Sys.init], by simp [Sys.initF, Sys.init], by simp [Sys.initF, Sys.init]⟩
+
+/-- signing the monitor's current holder commitment keeps the invariant (shared by sign / goOnChain / htlcTimeout / fundingSeen) -/
+theorem Inv.signNow {s : Sys} (inv : Inv s) (f : Flags) (hf : f.holderTxSigned = true) :
+    Inv { s with flags := f, signReq := s.monCur :: s.signReq } := by
+  refine ⟨inv.i1, inv.i2, inv.i3, fun _ => hf, ?_⟩
+  intro n hn
+  simp only [List.mem_cons] at hn
+  rcases hn with rfl | hn
+  · refine ⟨fun hm => Nat.lt_irrefl _ (inv.i1 _ hm), ?_⟩
+    intro fr hq
+    have := inv.i3 _ _ hq; have := inv.i2; omega
+  · exact inv.i5 n hn
+
+/-- changing flags without un-setting holder_tx_signed keeps the invariant -/
+theorem Inv.flagsOnly {s : Sys} (inv : Inv s) (f : Flags) (hf : s.flags.holderTxSigned = true → f.holderTxSigned = true) :
+    Inv { s with flags := f } :=
+  ⟨inv.i1, inv.i2, inv.i3, fun h => hf (inv.i4 h), inv.i5⟩
+
 theorem Inv.step {s s' : Sys} (inv : Inv s) (e : Ev) (h : step s e = some s') : Inv s' := by
   cases e with
   | csRecv pc =>
@@ -95,6 +115,26 @@ theorem Inv.step {s s' : Sys} (inv : Inv s) (e : Ev) (h : step s e = some s') : 
       intro fr hq
       have := inv.i3 _ _ hq; have := inv.i2; omega
     · exact inv.i5 n hn
+  | goOnChain rfs =>
+    simp only [HolderGate.step] at h; cases h
+    split
+    · exact inv.flagsOnly _ (fun _ => rfl)
+    · exact inv.signNow _ rfl
+  | htlcTimeout =>
+    simp only [HolderGate.step] at h; cases h
+    split
+    · exact inv.signNow _ rfl
+    · exact inv.flagsOnly _ (fun _ => rfl)
+  | fundingSeen =>
+    simp only [HolderGate.step] at h; cases h
+    split
+    · rename_i hb
+      -- the GENERATED broadcast-on-funding-seen condition includes holder_tx_signed: the channel was frozen when marked
+      have hsig : s.flags.holderTxSigned = true := by
+        simp only [broadcastOnFundingSeen, Bool.and_eq_true] at hb
+        exact hb.2
+      exact inv.signNow _ hsig
+    · exact inv.flagsOnly _ (fun hx => hx)
   | lockdown =>
     simp only [HolderGate.step] at h; cases h
     exact ⟨inv.i1, inv.i2, inv.i3, inv.i4, inv.i5⟩
